@@ -253,6 +253,18 @@ func runScenario(sc *Scn, rep *runner.Report, replayChoices []int) []explore.Fai
 					x.Fail("ip-hash-port-sensitive", "ip_hash gave %d for %s but %d for the same IP with another port; %s", idx, sc.Addr, i3, desc)
 				}
 			}
+			if a, ok := parseAddrSafe(sc.Addr).(*net.UDPAddr); ok { // datagram clients: same rule
+				for _, port := range []int{a.Port + 1, 1, 65535} {
+					other := connFor("udp:" + (&net.UDPAddr{IP: a.IP, Port: port, Zone: a.Zone}).String())
+					if i3, _ := sel(policy, pool, other); i3 != idx {
+						x.Fail("ip-hash-port-sensitive", "ip_hash gave %d for UDP client %s but %d for the same IP with port %d; %s", idx, sc.Addr, i3, port, desc)
+					}
+				}
+				// ... and the same IP over TCP
+				if i3, _ := sel(policy, pool, connFor((&net.TCPAddr{IP: a.IP, Port: a.Port}).String())); i3 != idx {
+					x.Fail("ip-hash-port-sensitive", "ip_hash gave %d for UDP client %s but %d for the same IP over TCP; %s", idx, sc.Addr, i3, desc)
+				}
+			}
 			// an upstream other than the chosen one leaving does not move the client
 			for _, j := range avail {
 				if j == idx || idx < 0 {
@@ -344,7 +356,7 @@ func pools(n int, menu []string, yield func([]string) bool) bool {
 	}
 }
 
-var addrs = []string{"192.0.2.7:50000", "10.1.2.3:1", "[2001:db8::1]:443", "[fe80::1%eth0]:22", "unix:/run/x.sock", "udp:198.51.100.9:53"}
+var addrs = []string{"192.0.2.7:50000", "10.1.2.3:1", "[2001:db8::1]:443", "[fe80::1%eth0]:22", "unix:/run/x.sock", "udp:198.51.100.9:53", "udp:[2001:db8::5]:5353"}
 
 func scenarios(tier string, yield func(any) bool) {
 	small := []string{"ok0", "ok1", "unhealthy", "full"}
@@ -411,7 +423,7 @@ func main() {
 	runner.Main(&runner.Harness{
 		ID:    "C10",
 		Level: "model_checking",
-		Rule:  "every pool of size 0..3 over 10 upstream state kinds (idle/1/2 connections, unhealthy, failed>=max_fails, full, two-peer healthy, two-peer with one peer down, two-peer with each peer below the limit but the sum at it, two-peer with one peer at the limit), size 4 over 6 (10 thorough) kinds, size 5 over 4 kinds (thorough), sizes 5..8 over all available/unavailable vectors; x every policy (first; round_robin from start counters incl. the 2^32 wrap-around, 2n+1 calls; ip_hash for 6 client addresses incl. IPv6, zone, unix, UDP; random, least_conn, random_choose with choose in {default,2,3,n,n+1}) x EVERY sequence of random draws (math/rand redirected to the explorer); reference model = filter of the pool by the kind's availability; non-trivial = pools with both available and unavailable upstreams",
+		Rule:  "every pool of size 0..3 over 10 upstream state kinds (idle/1/2 connections, unhealthy, failed>=max_fails, full, two-peer healthy, two-peer with one peer down, two-peer with each peer below the limit but the sum at it, two-peer with one peer at the limit), size 4 over 6 (10 thorough) kinds, size 5 over 4 kinds (thorough), sizes 5..8 over all available/unavailable vectors; x every policy (first; round_robin from start counters incl. the 2^32 wrap-around, 2n+1 calls; ip_hash for 7 client addresses incl. IPv6, zone, unix, UDP (each also with other source ports and over the other transport); random, least_conn, random_choose with choose in {default,2,3,n,n+1}) x EVERY sequence of random draws (math/rand redirected to the explorer); reference model = filter of the pool by the kind's availability; non-trivial = pools with both available and unavailable upstreams",
 		Assumptions: []string{
 			"weakrand.Int() is only used modulo small counts: its domain is modelled as 0..11 (all residues mod 1,2,3,4,6,12)",
 			"the 2^-32 case where every HRW hash is 0 is outside the enumerated addresses",
